@@ -43,8 +43,22 @@ func c18Planned(e *Env, viol func(kind, sig, what, chk string, rep any), mu *syn
 				t.Cols = append(t.Cols, sqCol{Name: fmt.Sprintf("zd%d", k), Type: hx.Pick(r, []string{"integer", "text"})})
 			}
 		}
+		swap := ""
+		if ci%5 == 4 && len(cur.Tables) > 0 {
+			// ONE column is dropped and ONE column of the same type and nullability is added to the same table (a
+			// rebuild that looks like a rename and is none: the values of the dropped column are gone)
+			swap = hx.Pick(r, []string{"integer", "text", "real"})
+			t := cur.Tables[0]
+			t.Cols = append(t.Cols, sqCol{Name: "zd1", Type: swap})
+		}
 		des := cur.clone()
 		var edits []*sqEdit
+		if swap != "" {
+			t := des.Tables[0]
+			t.Cols[len(t.Cols)-1] = sqCol{Name: "za1", Type: swap}
+			edits = append(edits, &sqEdit{"drop-column", t.Name, "zd1"}, &sqEdit{"add-column", t.Name, "za1"})
+			dropK = -1
+		}
 		if dropK > 0 {
 			t := des.Tables[0]
 			t.Cols = t.Cols[:len(t.Cols)-dropK]
